@@ -210,8 +210,8 @@ impl Property for C03 {
     }
     fn cases(&self, tier: Tier) -> u32 {
         match tier {
-            Tier::Quick => 6000,
-            Tier::Thorough => 80000,
+            Tier::Quick => 60_000,
+            Tier::Thorough => 600_000,
         }
     }
     fn rule(&self) -> String {
